@@ -1111,7 +1111,7 @@ def run(rep, tier):
             ok, how = excl.declared(lang, feat)
             if ok:
                 declared[(lang, feat)] = how
-    rep.floor("R16.2", "(backend, feature) pairs declared unsupported", len(declared), 16)
+    rep.floor("R16.2", "(backend, feature) pairs declared unsupported", len(declared), 10)
     rep.extra["declared_unsupported"] = {f"{l}:{f}": h for (l, f), h in sorted(declared.items())}
     for lang in TEST_LANGS:
         rep.ob("R16.2", f"{lang}: should_fail_verify evaluates (declares {sorted(f for (l, f) in declared if l == lang)})",
